@@ -79,6 +79,12 @@ type outcome struct {
 	Detail    string  `json:"detail,omitempty"`
 	Child     bool    `json:"child,omitempty"`
 	CpuMs     float64 `json:"cpu_ms,omitempty"` // user+system time of the child process (load-independent)
+	// schema hand/endless only (endless.go): resolver invocations and deepest response path of the most expensive
+	// execution of the job, and the bounds the document alone gives for them
+	Calls      int64 `json:"calls,omitempty"`
+	Depth      int64 `json:"depth,omitempty"`
+	DepthBound int64 `json:"depth_bound,omitempty"`
+	CallBound  int64 `json:"call_bound,omitempty"`
 }
 
 // time bound: a polynomial in the input size with generous constants (lead's ruling on D-09e: validation is
@@ -225,6 +231,12 @@ func execJob(j job) (o outcome) {
 		valid = vr.IsValid
 	}
 	mustNoData := textEntry && (!parseOK || !valid)
+	// endless data (endless.go): executions of an unvalidated AST are judged on resolver invocations and depth as well
+	endless := j.Schema%len(schemas) == endlessSchemaIndex && parseOK && j.Variant == ""
+	var eb endlessBounds
+	if endless {
+		eb = endlessBoundsOf(doc, j.Op)
+	}
 
 	params := graphql.ExecuteParams{Schema: *sch, Root: root, AST: doc, OperationName: j.Op, Args: vars}
 	switch j.Variant {
@@ -292,10 +304,22 @@ func execJob(j job) (o outcome) {
 			return o
 		}
 		for i := 0; i < 2 && o.Violation == ""; i++ { // the second execution reuses the lazily planned sub-selections
+			if endless {
+				endlessArm(eb)
+			}
 			o.Class, o.Violation = shape(graphql.ExecutePlan(plan, params), false)
+			if endless {
+				endlessCheck(j, eb, &o)
+			}
 		}
 	case "Execute":
+		if endless {
+			endlessArm(eb)
+		}
 		o.Class, o.Violation = shape(graphql.Execute(params), false)
+		if endless {
+			endlessCheck(j, eb, &o)
+		}
 	case "ExecuteSubscription":
 		ctx, cancel := context.WithCancel(context.Background())
 		params.Context = ctx
@@ -792,6 +816,22 @@ func (p *pool) record(j job, o outcome) {
 	if o.Child {
 		run.Tag("ran-in-child-process")
 	}
+	if o.DepthBound > 0 {
+		run.Tag("endlessData")
+		run.Tag(fmt.Sprintf("endlessData:deepest-resolver=%d", o.Depth))
+		run.Tag(fmt.Sprintf("endlessData:slack-to-depth-bound=%d", o.DepthBound-o.Depth))
+		calls := "0"
+		for lim := int64(10); o.Calls > 0; lim *= 10 {
+			if o.Calls <= lim {
+				calls = fmt.Sprintf("<=%d", lim)
+				break
+			}
+		}
+		run.Tag("endlessData:resolver-invocations" + calls)
+		if o.Detail == "endlessData:call-cap-reached" {
+			run.Tag(o.Detail)
+		}
+	}
 	p.slow = append(p.slow, slowJob{entry, j.Origin, len(j.Src) + len(j.Vars), o.Ms, o.CpuMs, o.LimitMs})
 	sort.Slice(p.slow, func(a, b int) bool { return p.slow[a].Ms > p.slow[b].Ms })
 	if max := 12; len(p.slow) > max && os.Getenv("VERIF_C09_ONLY") != "nasty" {
@@ -821,6 +861,10 @@ func (p *pool) record(j job, o outcome) {
 func knownFinding(j job, o outcome) (class, what string) {
 	return "", ""
 }
+
+// the job streams draw on the first four schemas; hand/endless (index 4, endless.go) is used by the family cyclicBareFirst
+// only, whose jobs run one at a time in child processes (its resolvers keep process-wide counters)
+const streamSchemas = 4
 
 var entries = []string{"Validate", "PlanQuery", "Execute", "ExecuteSubscription", "CacheGet", "CacheGetNorm", "Do", "Subscribe"}
 
@@ -900,7 +944,7 @@ func main() {
 	}
 	run := hx.Begin("C09") // parses the flags
 	buildSchemas()
-	run.Res.Rule = "job = (entry point or nil/zero-parameter variant, one of 4 schemas, document text, operation name, variables JSON); texts: grammar-directed documents and their mutations (byte flips, token insert/delete/duplicate, truncation, splices), hand-written nasties (fragment cycles of length 1-4 directly and through fields, unknown types, type-system definitions in requests, missing/ambiguous operations, 10k-deep nesting, 10k-wide sets, huge literals), generated family cyclicMixedExclusive (harness/cycfam: fragment tables of 2-3 fragments on different / the same object types and on the interface, spread side by side below an abstract field, bodies = subsets of {x: a { ...Fj }, ...Fj, plain field}: all 8649 two-fragment tables plus a seeded random sample with three fragments, through ValidateDocument, Do and PlanCache.Get in child processes), seed corpus (kitchen sinks, corpus/C09) under a coverage-less mutational loop; every AST the real parser accepts is fed UNVALIDATED to ValidateDocument, PlanQuery+ExecutePlan x2, Execute, ExecuteSubscription, and as text to Do, Subscribe, PlanCache.Get (normalize off/on, miss+hit); non-trivial = non-empty input that the parser accepted or that went through a text-level entry point; distinct by the whole job"
+	run.Res.Rule = "job = (entry point or nil/zero-parameter variant, one of 4 schemas (a fifth, hand/endless, for the family cyclicBareFirst), document text, operation name, variables JSON); texts: grammar-directed documents and their mutations (byte flips, token insert/delete/duplicate, truncation, splices), hand-written nasties (fragment cycles of length 1-4 directly and through fields, unknown types, type-system definitions in requests, missing/ambiguous operations, 10k-deep nesting, 10k-wide sets, huge literals), generated family cyclicMixedExclusive (harness/cycfam: fragment tables of 2-3 fragments on different / the same object types and on the interface, spread side by side below an abstract field, bodies = subsets of {x: a { ...Fj }, ...Fj, plain field}: all 8649 two-fragment tables plus a seeded random sample with three fragments, through ValidateDocument, Do and PlanCache.Get in child processes), generated family cyclicBareFirst (harness/cycfam/barefirst.go: fragment cycles through fields in which occurrences of the composite field WITHOUT selection set stand before / after the ones with a sub-selection, in the operation, in fragment bodies and one level down - all ordered choices of <=3 (operation) x <=2 (fragment body; thorough <=3) of six letters for one fragment, hand-written neighbours of seeded change C09-13, a seeded random sample with 2-3 fragments, abstract / list fields, alias collisions and inline fragments - through Execute and PlanQuery+ExecutePlan x2 UNVALIDATED on a fifth schema hand/endless whose data never ends by itself (every composite field resolves to a fresh or a shared, self-referential object at every depth; lists of 1-2): besides the result shape, the deepest response path a resolver ran at must stay <= 2 + depth(operation) + (deepest fragment body + 1) x #fragments (exec_depth_bounded_by_selection + 1) and the resolver invocations <= #field nodes x sum_{d<that}(list length x #response keys)^d; the data gives up 8 levels below the depth bound / after 4 x the call bound (at most 200000 calls) so that a violation is reported promptly; child processes under the CPU watchdog), seed corpus (kitchen sinks, corpus/C09) under a coverage-less mutational loop; every AST the real parser accepts is fed UNVALIDATED to ValidateDocument, PlanQuery+ExecutePlan x2, Execute, ExecuteSubscription, and as text to Do, Subscribe, PlanCache.Get (normalize off/on, miss+hit); non-trivial = non-empty input that the parser accepted or that went through a text-level entry point; distinct by the whole job"
 
 	if run.ReplayIn != "" {
 		var rp struct {
@@ -943,14 +987,26 @@ func main() {
 		}
 	}
 	run.Res.Extra["cyclicMixedExclusive_jobs"] = famDocs
-	if os.Getenv("VERIF_C09_ONLY") == "cyclic" {
+	// (0'') generated family cyclicBareFirst on endless data (barefirst.go): Execute and PlanQuery+ExecutePlan, unvalidated
+	bareDocs := 0
+	if only := os.Getenv("VERIF_C09_ONLY"); only == "" || only == "cyclic" || only == "barefirst" {
+		for _, j := range bareFirstJobs(run) {
+			if p.stop() {
+				break
+			}
+			bareDocs += len(j.Batch)
+			p.submit(j)
+		}
+	}
+	run.Res.Extra["cyclicBareFirst_jobs"] = bareDocs
+	if only := os.Getenv("VERIF_C09_ONLY"); only == "cyclic" || only == "barefirst" {
 		p.close()
 		run.Res.Extra["slowest_jobs"] = p.slow
 		run.Finish()
 		return
 	}
 	for _, n := range nasties(run.Thorough()) {
-		for si := range schemas {
+		for si := 0; si < streamSchemas; si++ {
 			if n.big && (si > 1 || (si > 0 && !run.Thorough())) {
 				continue
 			}
@@ -990,7 +1046,7 @@ func main() {
 		}
 		doc, err := safeParse(src)
 		p.submit(job{Entry: "Parse", Src: src, Origin: origin})
-		si := r.Intn(len(schemas))
+		si := r.Intn(streamSchemas)
 		if r.Chance(1, 2) {
 			si = r.Intn(2) // the hand-written schemas know the generator's names
 		}
@@ -1021,7 +1077,7 @@ func main() {
 		if len(src) > 1<<16 {
 			src = src[:1<<16]
 		}
-		si := r.Intn(len(schemas))
+		si := r.Intn(streamSchemas)
 		var doc *ast.Document
 		if r.Chance(1, 2) {
 			doc, _ = safeParse(src)
